@@ -558,9 +558,13 @@ def SrcAct.isWrapper (a : SrcAct) : Bool :=
   | .wrapper _ => true
   | _ => false
 
-def renderActs : List SrcAct → Toks
-  | [] => []
-  | a :: as => (if a.deferred then [TT.punct '~' a.tildeJoint] else []) ++ (a.op ++ (a.body ++ renderActs as))
+/-- the actions as written, followed by `term`: nothing, or the `,` that separates the branch from what follows -/
+def renderActs (term : Toks) : List SrcAct → Toks
+  | [] => term
+  | a :: as => (if a.deferred then [TT.punct '~' a.tildeJoint] else []) ++ (a.op ++ (a.body ++ renderActs term as))
+
+/-- what may stand behind a branch: the end of the input, or `,` and more input -/
+def TermOK (term : Toks) : Prop := term = [] ∨ ∃ j more, term = TT.punct ',' j :: more
 
 def SrcAct.mv (a : SrcAct) : Move := if a.isWrapper then .wrap else if a.comb == .unwrap then .unwrap else .none
 
@@ -574,9 +578,9 @@ def SrcAct.tail (a : SrcAct) (rest : Toks) : Toks :=
   | .wrapper _ => rest
 
 /-- the unit in front of `acts` ends with: which action follows, and what is left for it -/
-def nextOf : List SrcAct → Option NextGroup × Toks
-  | [] => (none, [])
-  | a :: as => (some a.grp, a.tail (renderActs as))
+def nextOf (term : Toks) : List SrcAct → Option NextGroup × Toks
+  | [] => (none, term)
+  | a :: as => (some a.grp, a.tail (renderActs term as))
 
 /-- an operand followed by `after`: no `~`, complete, no top-level split point -/
 def OperandOK (o : Oracle) (x after : Toks) : Prop :=
@@ -584,25 +588,25 @@ def OperandOK (o : Oracle) (x after : Toks) : Prop :=
   ∀ p s, x = p ++ s → s ≠ [] → stopHere o .expr false p (s ++ after) = false
 
 /-- the operator of the first action is recognised where it stands, and `>>>` follows it exactly when written -/
-def HeadOK : List SrcAct → Prop
-  | [] => True
+def HeadOK (term : Toks) : List SrcAct → Prop
+  | [] => TermOK term
   | a :: as =>
     a.row.comb = some a.comb ∧ a.op.length = a.row.len ∧
-    Tables.deferredDet.check (a.op ++ (a.body ++ renderActs as)) = false ∧
-    firstMatch (a.op ++ (a.body ++ renderActs as)) = some a.row ∧
-    Tables.wrapperDet.check (a.body ++ renderActs as) = a.isWrapper ∧
+    Tables.deferredDet.check (a.op ++ (a.body ++ renderActs term as)) = false ∧
+    firstMatch (a.op ++ (a.body ++ renderActs term as)) = some a.row ∧
+    Tables.wrapperDet.check (a.body ++ renderActs term as) = a.isWrapper ∧
     (a.isWrapper = true → a.comb ≠ .unwrap ∧ canBeWrapper a.comb = true ∧ a.body.length = Tables.wrapperDet.len)
 
 /-- every action is well-formed: arity and operand match the operator -/
-def ActsOK (o : Oracle) : List SrcAct → Prop
-  | [] => True
+def ActsOK (o : Oracle) (term : Toks) : List SrcAct → Prop
+  | [] => TermOK term
   | a :: as =>
-    HeadOK (a :: as) ∧
+    HeadOK term (a :: as) ∧
     (match a.kind with
-      | .unary x => arityOf a.comb = some ⟨a.ctor, 1, false, .expr⟩ ∧ OperandOK o x (renderActs as)
+      | .unary x => arityOf a.comb = some ⟨a.ctor, 1, false, .expr⟩ ∧ OperandOK o x (renderActs term as)
       | .nullary => ∃ k, arityOf a.comb = some ⟨a.ctor, 0, true, k⟩
       | .wrapper _ => wrapperCtorOf a.comb = some a.ctor) ∧
-    ActsOK o as
+    ActsOK o term as
 
 /-- the `>>>`/`<<<` balance never goes below zero (it restarts at every `~`) -/
 def BalanceOK : Int → List SrcAct → Prop
@@ -617,36 +621,62 @@ def expMember (o : Oracle) (a : SrcAct) : Member :=
   | .nullary => ⟨a.ctor, a.deferred, a.mv, []⟩
   | .wrapper _ => ⟨a.ctor, a.deferred, .wrap, [⟨.expr, Tables.wrapperPlaceholder⟩]⟩
 
-theorem ActsOK.head {o : Oracle} {acts : List SrcAct} (h : ActsOK o acts) : HeadOK acts := by
+theorem ActsOK.head {o : Oracle} {term : Toks} {acts : List SrcAct} (h : ActsOK o term acts) : HeadOK term acts := by
   cases acts with
-  | nil => trivial
+  | nil => exact h
   | cons a as => exact h.1
 
-/-- a unit (operand `x`, or nothing) followed by the actions `acts`: `parse_until` returns exactly it, the first action
-    as what follows — with its `~` and `>>>` flags — and leaves what belongs to that action -/
-theorem parseUntil_acts (o : Oracle) (syn : Syn) (ae : Bool) (x : Toks) (acts : List SrcAct)
+/-- the `,` between branches is the first determiner, consumes nothing and names no combinator -/
+theorem comma_row (j : Bool) (more : Toks) :
+    firstMatch (TT.punct ',' j :: more) = some ⟨none, [[.punct [',']]], 0⟩ := by det_simp
+
+/-- a complete operand in front of the `,` that ends the branch: returned exactly, nothing follows in this chain, the
+    comma is left for the chain builder -/
+theorem parseUntil_sep (o : Oracle) (syn : Syn) (ae : Bool) (x : Toks) (j : Bool) (more : Toks)
     (hx : ∀ t ∈ x, isTilde t = false) (hvalid : o.valid syn x = true)
-    (hnosplit : ∀ p s, x = p ++ s → s ≠ [] → stopHere o syn ae p (s ++ renderActs acts) = false)
-    (hhead : HeadOK acts) :
-    parseUntil o syn ae (x ++ renderActs acts) = .ok ⟨x, (nextOf acts).1, (nextOf acts).2⟩ := by
+    (hnosplit : ∀ p s, x = p ++ s → s ≠ [] → stopHere o syn ae p (s ++ TT.punct ',' j :: more) = false) :
+    parseUntil o syn ae (x ++ TT.punct ',' j :: more) = .ok ⟨x, none, TT.punct ',' j :: more⟩ := by
+  have hnt : Tables.deferredDet.check (TT.punct ',' j :: more) = false := by
+    cases hc : Tables.deferredDet.check (TT.punct ',' j :: more) with
+    | false => rfl
+    | true =>
+      obtain ⟨j', r, hr⟩ := (deferred_iff _).1 hc
+      simp at hr
+  have hsc := scan_roundtrip o syn ae x (TT.punct ',' j :: more) ⟨none, [[.punct [',']]], 0⟩ false false hx hnt
+    (comma_row j more) (by simp [hvalid]) (by simpa using hnosplit) (x.length + (TT.punct ',' j :: more).length + 1) (by simp)
+  unfold parseUntil
+  simp only [Bool.false_eq_true, if_false, List.nil_append] at hsc
+  have hlen : (x ++ TT.punct ',' j :: more).length + 1 = x.length + (TT.punct ',' j :: more).length + 1 := by simp
+  rw [hlen, hsc]
+  simp [eraseN, hvalid]
+
+/-- a unit (operand `x`, or nothing) followed by the actions `acts` and the terminator: `parse_until` returns exactly it,
+    the first action as what follows — with its `~` and `>>>` flags — and leaves what belongs to that action -/
+theorem parseUntil_acts (o : Oracle) (syn : Syn) (ae : Bool) (term x : Toks) (acts : List SrcAct)
+    (hx : ∀ t ∈ x, isTilde t = false) (hvalid : o.valid syn x = true)
+    (hnosplit : ∀ p s, x = p ++ s → s ≠ [] → stopHere o syn ae p (s ++ renderActs term acts) = false)
+    (hhead : HeadOK term acts) :
+    parseUntil o syn ae (x ++ renderActs term acts) = .ok ⟨x, (nextOf term acts).1, (nextOf term acts).2⟩ := by
   cases acts with
   | nil =>
-    simp only [renderActs, List.append_nil, nextOf]
-    exact parseUntil_end o syn ae x hx hvalid (fun p s h1 h2 => by simpa [renderActs] using hnosplit p s h1 h2)
+    simp only [renderActs, nextOf]
+    rcases hhead with rfl | ⟨j, more, rfl⟩
+    · simp only [List.append_nil]
+      exact parseUntil_end o syn ae x hx hvalid (fun p s h1 h2 => by simpa [renderActs] using hnosplit p s h1 h2)
+    · exact parseUntil_sep o syn ae x j more hx hvalid (fun p s h1 h2 => by simpa [renderActs] using hnosplit p s h1 h2)
   | cons a as =>
     obtain ⟨h1, h2, h3, h4, h5, h6⟩ := hhead
-    have herase : eraseN a.row.len (a.op ++ (a.body ++ renderActs as)) = some (a.body ++ renderActs as) := by
+    have herase : eraseN a.row.len (a.op ++ (a.body ++ renderActs term as)) = some (a.body ++ renderActs term as) := by
       rw [← h2]; exact eraseN_append _ _
-    have hpu := parseUntil_roundtrip o syn ae x (a.op ++ (a.body ++ renderActs as)) (a.body ++ renderActs as) a.row a.comb
+    have hpu := parseUntil_roundtrip o syn ae x (a.op ++ (a.body ++ renderActs term as)) (a.body ++ renderActs term as) a.row a.comb
       a.deferred a.tildeJoint a.isWrapper hx h3 h4 h1 hvalid
       (fun p s e1 e2 => by simpa [renderActs] using hnosplit p s e1 e2) herase h5
       (fun hw => ⟨(h6 hw).1, (h6 hw).2.1⟩)
-    have hin : x ++ renderActs (a :: as) =
-        x ++ ((if a.deferred then [TT.punct '~' a.tildeJoint] else []) ++ (a.op ++ (a.body ++ renderActs as))) := rfl
+    have hin : x ++ renderActs term (a :: as) =
+        x ++ ((if a.deferred then [TT.punct '~' a.tildeJoint] else []) ++ (a.op ++ (a.body ++ renderActs term as))) := rfl
     rw [hin, hpu]
     simp only [nextOf, SrcAct.grp, SrcAct.mv]
     congr 2
-    -- what is left
     cases hk : a.kind with
     | unary y => simp [SrcAct.isWrapper, SrcAct.tail, SrcAct.body, hk]
     | nullary => simp [SrcAct.isWrapper, SrcAct.tail, SrcAct.body, hk]
@@ -663,66 +693,81 @@ theorem unary_not_unwrap (c ctor : Comb) (h : arityOf c = some ⟨ctor, 1, false
   cases h
 
 /-- the member of the action whose group is `g`, parsed from what `nextOf` left for it -/
-theorem parseGroup_act (o : Oracle) (a : SrcAct) (as : List SrcAct) (hok : ActsOK o (a :: as)) :
-    ∃ raws, parseGroup o a.grp (a.tail (renderActs as)) =
-      .ok ((expMember o a, raws), (nextOf as).1, (nextOf as).2) ∧ (∀ r, raws = [r] → a.kind = .unary r) := by
+theorem parseGroup_act (o : Oracle) (term : Toks) (a : SrcAct) (as : List SrcAct) (hok : ActsOK o term (a :: as)) :
+    ∃ raws, parseGroup o a.grp (a.tail (renderActs term as)) =
+      .ok ((expMember o a, raws), (nextOf term as).1, (nextOf term as).2) := by
   obtain ⟨hhead, hkind, hrest⟩ := hok
   have hnext := ActsOK.head hrest
   cases hk : a.kind with
   | unary x =>
     rw [hk] at hkind
     obtain ⟨har, hx1, hx2, hx3⟩ := hkind
-    have hpu := parseUntil_acts o .expr false x as hx1 hx2 hx3 hnext
+    have hpu := parseUntil_acts o .expr false term x as hx1 hx2 hx3 hnext
     have hnw : a.isWrapper = false := by simp [SrcAct.isWrapper, hk]
-    refine ⟨[x], ?_, fun r hr => by simp at hr; rw [hr]⟩
+    refine ⟨[x], ?_⟩
     simp [parseGroup, SrcAct.grp, SrcAct.mv, hnw, unary_not_unwrap a.comb a.ctor har, har, parseNOrEmpty, parseUnits,
       SrcAct.tail, hk, hpu, expMember]
   | nullary =>
     rw [hk] at hkind
     obtain ⟨k, har⟩ := hkind
-    have hpu := parseUntil_acts o .empty true [] as (by simp) rfl (fun p s h1 h2 => by
+    have hpu := parseUntil_acts o .empty true term [] as (by simp) rfl (fun p s h1 h2 => by
       have : p = [] ∧ s = [] := by simpa using h1.symm
       exact absurd this.2 h2) hnext
     simp only [List.nil_append] at hpu
     have hnw : a.isWrapper = false := by simp [SrcAct.isWrapper, hk]
-    refine ⟨[], ?_, fun r hr => by simp at hr⟩
+    refine ⟨[], ?_⟩
     by_cases hu : (a.comb == Comb.unwrap) = true
     · simp [parseGroup, SrcAct.grp, SrcAct.mv, hnw, hu, har, parseNOrEmpty, SrcAct.tail, hk, hpu, expMember]
     · simp only [Bool.not_eq_true] at hu
       simp [parseGroup, SrcAct.grp, SrcAct.mv, hnw, hu, har, parseNOrEmpty, SrcAct.tail, hk, hpu, expMember]
   | wrapper w =>
     rw [hk] at hkind
-    have hpu := parseUntil_acts o .empty true [] as (by simp) rfl (fun p s h1 h2 => by
+    have hpu := parseUntil_acts o .empty true term [] as (by simp) rfl (fun p s h1 h2 => by
       have : p = [] ∧ s = [] := by simpa using h1.symm
       exact absurd this.2 h2) hnext
     simp only [List.nil_append] at hpu
     have hw : a.isWrapper = true := by simp [SrcAct.isWrapper, hk]
-    refine ⟨[], ?_, fun r hr => by simp at hr⟩
+    refine ⟨[], ?_⟩
     simp [parseGroup, SrcAct.grp, SrcAct.mv, hw, hkind, SrcAct.tail, hk, hpu, expMember]
+
+/-- what the chain builder leaves of the terminator: the separating comma is consumed -/
+def afterTerm (term : Toks) : Toks := (eatComma term).getD term
+
+theorem finish_chain (term : Toks) (hterm : TermOK term) (pat : Option BranchPat) (ms : List Member) (lastBlock : Bool) :
+    (if lastBlock then (.ok (⟨pat, ms⟩, (eatComma term).getD term) : Except ParseErr (Branch × Toks))
+     else if term.isEmpty then .ok (⟨pat, ms⟩, term)
+     else match eatComma term with
+       | some r => .ok (⟨pat, ms⟩, r)
+       | none => .error (.syn "expected `,`")) = .ok (⟨pat, ms⟩, afterTerm term) := by
+  rcases hterm with rfl | ⟨j, more, rfl⟩
+  · cases lastBlock <;> simp [afterTerm, eatComma]
+  · cases lastBlock <;> simp [afterTerm, eatComma]
 
 /-- **Parse ∘ render = id for chains.**  Any number of actions `[~] op operand`, `[~] op` (operand-less operators and
     `<<<`) and `[~] op >>>`, each operator recognised where it stands, every operand complete and without a top-level
-    split point, `>>>`/`<<<` balanced within each step: the chain builder returns exactly these members, in order, each with
-    the `~` flag and the `>>>`/`<<<` role it was written with, and consumes the whole input.  (Operators with several
-    operands or type operands — `^@`, `?^@`, `=>[] T`, `<-> A,B,C,D` — are not covered: partial.) -/
-theorem chain_roundtrip_partial (o : Oracle) (acts : List SrcAct) :
+    split point, `>>>`/`<<<` balanced within each step, followed by the end of the input or by the `,` that separates the
+    branch from the next one: the chain builder returns exactly these members, in order, each with the `~` flag and the
+    `>>>`/`<<<` role it was written with, and consumes exactly the chain and its separating comma.  (Operators with
+    several operands or type operands — `^@`, `?^@`, `=>[] T`, `<-> A,B,C,D` — are not covered: partial.) -/
+theorem chain_roundtrip_partial (o : Oracle) (term : Toks) (acts : List SrcAct) :
     ∀ (a : SrcAct) (members : List Member) (pat : Option BranchPat) (w : Int) (fuel : Nat),
-      ActsOK o (a :: acts) → BalanceOK w acts → acts.length + 1 ≤ fuel →
-      buildChain o fuel a.grp (a.tail (renderActs acts)) members pat w false =
-        .ok (⟨pat, members ++ (expMember o a :: acts.map (expMember o))⟩, []) := by
+      ActsOK o term (a :: acts) → BalanceOK w acts → acts.length + 1 ≤ fuel →
+      buildChain o fuel a.grp (a.tail (renderActs term acts)) members pat w false =
+        .ok (⟨pat, members ++ (expMember o a :: acts.map (expMember o))⟩, afterTerm term) := by
   induction acts with
   | nil =>
     intro a members pat w fuel hok _ hf
     obtain ⟨fuel, rfl⟩ : ∃ f, fuel = f + 1 := ⟨fuel - 1, by simp at hf; omega⟩
-    obtain ⟨raws, hpg, _⟩ := parseGroup_act o a [] hok
+    obtain ⟨raws, hpg⟩ := parseGroup_act o term a [] hok
+    have hterm : TermOK term := hok.2.2
     unfold buildChain
     rw [hpg]
-    simp only [nextOf, Bool.false_eq_true, if_false]
-    cases hk : a.kind <;> simp [expMember, hk, mkOperand, eatComma]
+    simp only [nextOf, Bool.false_eq_true, if_false, List.map_nil]
+    exact finish_chain term hterm pat _ _
   | cons b bs ih =>
     intro a members pat w fuel hok hbal hf
     obtain ⟨fuel, rfl⟩ : ∃ f, fuel = f + 1 := ⟨fuel - 1, by simp at hf; omega⟩
-    obtain ⟨raws, hpg, _⟩ := parseGroup_act o a (b :: bs) hok
+    obtain ⟨raws, hpg⟩ := parseGroup_act o term a (b :: bs) hok
     obtain ⟨hb1, hb2⟩ := hbal
     have hrec := ih b (members ++ [expMember o a]) pat _ fuel hok.2.2 hb2 (by simp at hf ⊢; omega)
     unfold buildChain
@@ -735,35 +780,167 @@ theorem chain_roundtrip_partial (o : Oracle) (acts : List SrcAct) :
     rw [hrec]
     simp [List.append_assoc]
 
-/-- the whole branch: an initial value without `let`, then the actions -/
-theorem branch_roundtrip_partial (o : Oracle) (x0 : Toks) (acts : List SrcAct)
-    (hx0 : OperandOK o x0 (renderActs acts)) (hlet : o.letSplit x0 = .notLet) (hacts : ActsOK o acts)
-    (hbal : BalanceOK 0 acts) :
-    buildChain o (acts.length + 2) ⟨.initial, false, .none⟩ (x0 ++ renderActs acts) [] none 0 true =
-      .ok (⟨none, ⟨.initial, false, .none, [mkOperand o .expr x0]⟩ :: acts.map (expMember o)⟩, []) := by
+/-- the whole branch: an initial value without `let`, then the actions, then the end of the input or `,` -/
+theorem branch_roundtrip_partial (o : Oracle) (term x0 : Toks) (acts : List SrcAct)
+    (hx0 : OperandOK o x0 (renderActs term acts)) (hlet : o.letSplit x0 = .notLet) (hacts : ActsOK o term acts)
+    (hbal : BalanceOK 0 acts) (fuel : Nat) (hfuel : acts.length + 2 ≤ fuel) :
+    buildChain o fuel ⟨.initial, false, .none⟩ (x0 ++ renderActs term acts) [] none 0 true =
+      .ok (⟨none, ⟨.initial, false, .none, [mkOperand o .expr x0]⟩ :: acts.map (expMember o)⟩, afterTerm term) := by
+  obtain ⟨fuel, rfl⟩ : ∃ f, fuel = f + 1 := ⟨fuel - 1, by omega⟩
   obtain ⟨hx1, hx2, hx3⟩ := hx0
-  have hpu := parseUntil_acts o .expr false x0 acts hx1 hx2 hx3 (ActsOK.head hacts)
-  have hpg : parseGroup o ⟨.initial, false, .none⟩ (x0 ++ renderActs acts) =
-      .ok ((⟨.initial, false, .none, [mkOperand o .expr x0]⟩, [x0]), (nextOf acts).1, (nextOf acts).2) := by
+  have hpu := parseUntil_acts o .expr false term x0 acts hx1 hx2 hx3 (ActsOK.head hacts)
+  have hpg : parseGroup o ⟨.initial, false, .none⟩ (x0 ++ renderActs term acts) =
+      .ok ((⟨.initial, false, .none, [mkOperand o .expr x0]⟩, [x0]), (nextOf term acts).1, (nextOf term acts).2) := by
     have har : arityOf Comb.initial = some ⟨.initial, 1, false, .expr⟩ := by decide
     simp [parseGroup, har, parseNOrEmpty, parseUnits, hpu]
   unfold buildChain
   rw [hpg]
   simp only [if_true, hlet]
   cases acts with
-  | nil => simp [nextOf, mkOperand, eatComma]
+  | nil =>
+    simp only [nextOf, List.map_nil, List.nil_append]
+    exact finish_chain term hacts none _ _
   | cons a as =>
     obtain ⟨hb1, hb2⟩ := hbal
-    have hrec := chain_roundtrip_partial o as a [⟨.initial, false, .none, [mkOperand o .expr x0]⟩] none _ (as.length + 1 + 1)
-      hacts hb2 (by omega)
+    have hrec := chain_roundtrip_partial o term as a [⟨.initial, false, .none, [mkOperand o .expr x0]⟩] none _ fuel
+      hacts hb2 (by simp at hfuel; omega)
     simp only [nextOf, List.nil_append]
     have hgd : a.grp.deferred = a.deferred := rfl
     have hgm : a.grp.mv = a.mv := rfl
     have hnot : ¬ ((if a.deferred = true then (0 : Int) else 0) + mvDelta a.mv < 0) := by omega
     simp only [hgd, hgm, hnot, if_false]
-    simp only [List.length_cons] at hrec ⊢
     rw [hrec]
     simp
+
+/-! ### 7. Several branches -/
+
+structure SrcBranch where
+  x0 : Toks
+  acts : List SrcAct
+
+/-- branches separated by `,` -/
+def renderBranches : List SrcBranch → Toks
+  | [] => []
+  | [b] => b.x0 ++ renderActs [] b.acts
+  | b :: b' :: bs => b.x0 ++ renderActs (TT.punct ',' false :: renderBranches (b' :: bs)) b.acts
+
+def expBranch (o : Oracle) (b : SrcBranch) : Branch :=
+  ⟨none, ⟨.initial, false, .none, [mkOperand o .expr b.x0]⟩ :: b.acts.map (expMember o)⟩
+
+/-- every branch is well-formed in front of what follows it, does not start like a handler, and is not longer than
+    its text (every operator has at least one token) -/
+def BranchesOK (o : Oracle) : List SrcBranch → Prop
+  | [] => True
+  | [b] =>
+    OperandOK o b.x0 (renderActs [] b.acts) ∧ o.letSplit b.x0 = .notLet ∧ ActsOK o [] b.acts ∧ BalanceOK 0 b.acts ∧
+    handlerKw (renderBranches [b]) = none ∧ b.acts.length ≤ (renderBranches [b]).length ∧ renderBranches [b] ≠ []
+  | b :: b' :: bs =>
+    OperandOK o b.x0 (renderActs (TT.punct ',' false :: renderBranches (b' :: bs)) b.acts) ∧ o.letSplit b.x0 = .notLet ∧
+    ActsOK o (TT.punct ',' false :: renderBranches (b' :: bs)) b.acts ∧ BalanceOK 0 b.acts ∧
+    handlerKw (renderBranches (b :: b' :: bs)) = none ∧ b.acts.length ≤ (renderBranches (b :: b' :: bs)).length ∧
+    renderBranches (b :: b' :: bs) ≠ [] ∧ BranchesOK o (b' :: bs)
+
+/-- **Commas separate branches.**  Branches written one after the other with `,` between them: the item loop of
+    `JoinInputDefault::parse` returns exactly these branches, in order, and no handler. -/
+theorem branches_roundtrip_partial (o : Oracle) (bs : List SrcBranch) :
+    ∀ (acc : List Branch) (fuel : Nat), BranchesOK o bs → bs.length + 1 ≤ fuel →
+      parseItems o fuel (renderBranches bs) acc none = .ok (acc ++ bs.map (expBranch o), none) := by
+  induction bs with
+  | nil =>
+    intro acc fuel _ hf
+    obtain ⟨fuel, rfl⟩ : ∃ f, fuel = f + 1 := ⟨fuel - 1, by simp at hf; omega⟩
+    simp [renderBranches, parseItems]
+  | cons b rest ih =>
+    intro acc fuel hok hf
+    obtain ⟨fuel, rfl⟩ : ∃ f, fuel = f + 1 := ⟨fuel - 1, by simp at hf; omega⟩
+    cases rest with
+    | nil =>
+      obtain ⟨h1, h2, h3, h4, h5, h6, h7⟩ := hok
+      have hb := branch_roundtrip_partial o [] b.x0 b.acts h1 h2 h3 h4 ((renderBranches [b]).length + 2) (by omega)
+      have hin : renderBranches [b] = b.x0 ++ renderActs [] b.acts := rfl
+      obtain ⟨t, ts, hts⟩ : ∃ t ts, renderBranches [b] = t :: ts := by
+        cases hr : renderBranches [b] with
+        | nil => exact absurd hr h7
+        | cons t ts => exact ⟨t, ts, rfl⟩
+      have hpi : parseItems o (fuel + 1) (renderBranches [b]) acc none =
+          parseItems o fuel (afterTerm []) (acc ++ [expBranch o b]) none := by
+        rw [hts]
+        simp only [parseItems]
+        rw [← hts, h5]
+        simp only [Option.isSome_none, Bool.false_eq_true, if_false]
+        rw [hin] at hb ⊢
+        rw [hb]
+        rfl
+      rw [hpi]
+      obtain ⟨fuel, rfl⟩ : ∃ f, fuel = f + 1 := ⟨fuel - 1, by simp at hf; omega⟩
+      simp [afterTerm, eatComma, parseItems]
+    | cons b' bs' =>
+      obtain ⟨h1, h2, h3, h4, h5, h6, h7, h8⟩ := hok
+      have hb := branch_roundtrip_partial o (TT.punct ',' false :: renderBranches (b' :: bs')) b.x0 b.acts h1 h2 h3 h4
+        ((renderBranches (b :: b' :: bs')).length + 2) (by omega)
+      have hin : renderBranches (b :: b' :: bs') =
+          b.x0 ++ renderActs (TT.punct ',' false :: renderBranches (b' :: bs')) b.acts := rfl
+      obtain ⟨t, ts, hts⟩ : ∃ t ts, renderBranches (b :: b' :: bs') = t :: ts := by
+        cases hr : renderBranches (b :: b' :: bs') with
+        | nil => exact absurd hr h7
+        | cons t ts => exact ⟨t, ts, rfl⟩
+      have hpi : parseItems o (fuel + 1) (renderBranches (b :: b' :: bs')) acc none =
+          parseItems o fuel (renderBranches (b' :: bs')) (acc ++ [expBranch o b]) none := by
+        rw [hts]
+        simp only [parseItems]
+        rw [← hts, h5]
+        simp only [Option.isSome_none, Bool.false_eq_true, if_false]
+        rw [hin] at hb ⊢
+        rw [hb]
+        simp [afterTerm, eatComma, expBranch]
+      rw [hpi, ih (acc ++ [expBranch o b]) fuel h8 (by simp at hf ⊢; omega)]
+      simp [List.append_assoc]
+
+
+/-- **The whole macro input**, without options and handler: branches separated by commas parse to exactly these
+    branches, in order. -/
+theorem input_roundtrip_partial (o : Oracle) (bs : List SrcBranch) (hne : bs ≠ []) (hok : BranchesOK o bs)
+    (hopt : optionKw (renderBranches bs) = none) :
+    parseMacroInput o (renderBranches bs) = .ok { branches := bs.map (expBranch o) } := by
+  have hrounds : Tables.optionRounds = none := rfl
+  have hlen : bs.length + 1 ≤ (renderBranches bs).length + 2 := by
+    -- every branch has at least one token
+    suffices h : ∀ l : List SrcBranch, BranchesOK o l → l.length ≤ (renderBranches l).length + 1 by
+      have := h bs hok; omega
+    intro l
+    induction l with
+    | nil => intro _; simp
+    | cons b rest ih =>
+      intro hl
+      cases rest with
+      | nil => simp
+      | cons b' bs' =>
+        obtain ⟨_, _, _, _, _, _, _, h8⟩ := hl
+        have := ih h8
+        have hin : renderBranches (b :: b' :: bs') =
+            b.x0 ++ renderActs (TT.punct ',' false :: renderBranches (b' :: bs')) b.acts := rfl
+        have hge : (renderBranches (b' :: bs')).length + 1 ≤
+            (renderActs (TT.punct ',' false :: renderBranches (b' :: bs')) b.acts).length := by
+          generalize b.acts = acts
+          induction acts with
+          | nil => simp [renderActs]
+          | cons a as iha => simp only [renderActs, List.length_append]; omega
+        rw [hin, List.length_append]
+        simp only [List.length_cons] at this ⊢
+        omega
+  unfold parseMacroInput
+  simp only [hrounds]
+  have hpo : parseOptions o ((renderBranches bs).length + 1) ((renderBranches bs).length + 1) (renderBranches bs) {} =
+      .ok ({}, renderBranches bs) := by
+    simp [parseOptions, hrounds, hopt]
+  rw [hpo]
+  simp only
+  rw [branches_roundtrip_partial o bs [] _ hok hlen]
+  have hne' : (bs.map (expBranch o)).isEmpty = false := by
+    cases bs with
+    | nil => exact absurd rfl hne
+    | cons b rest => rfl
+  simp [hne']
 
 /-- the model on a concrete chain with `~`, `>>>` and `<<<` (an oracle that accepts single tokens as expressions):
     `a |> f ~=> >>> <<<` -/
